@@ -19,6 +19,8 @@ import (
 	"strings"
 )
 
+var ipDebug bool
+
 func main() {
 	mode := "parfacts"
 	if len(os.Args) > 1 {
@@ -26,6 +28,9 @@ func main() {
 	}
 	switch mode {
 	case "parfacts":
+		genParFacts()
+	case "ipdebug":
+		ipDebug = true
 		genParFacts()
 	case "recordrange":
 		genRecordRange()
@@ -146,7 +151,9 @@ func genParFacts() {
 	}
 
 	// closure worker: a function literal run by n goroutines; idxParam = position of the index parameter
+	var ipRoots []ipRoot
 	closureWorker := func(r *region, fd *ast.FuncDecl, fl *ast.FuncLit, idxParam int, space string, multi bool) {
+		ipRoots = append(ipRoots, ipRoot{region: r.id, lit: fl, parent: fd})
 		b := &wbody{label: funcLabel(fd), multi: multi}
 		r.bodies = append(r.bodies, b)
 		v := a.newVisitor(r, b, funcLabel(fd))
@@ -173,6 +180,7 @@ func genParFacts() {
 	// named worker: a declared function/method started with `go f(args)`; parameters bound to plain
 	// variables of the parent are aliases of those variables, the others are shared by all workers.
 	namedWorker := func(r *region, parentFd *ast.FuncDecl, callee *ast.FuncDecl, call *ast.CallExpr, loopVar types.Object, multi bool) {
+		ipRoots = append(ipRoots, ipRoot{region: r.id, decl: callee, parent: parentFd})
 		a.called[funcLabel(callee)] = true
 		b := &wbody{label: funcLabel(callee), multi: multi}
 		r.bodies = append(r.bodies, b)
@@ -605,11 +613,15 @@ func genParFacts() {
 	// writes — by assignment, element assignment, or a method that changes its receiver (summary.go) — needs a
 	// lock, a sync.Once, or a type that is safe for concurrent use.  `init` functions and declarations run before
 	// any goroutine exists.
+	extraPkgs := map[string]*Pkg{}
+	pkgRegion := map[*Pkg]*region{}
+	pkgAllAcc := map[*Pkg][]*access{}
 	for _, extra := range []struct{ dir, path string }{{"query", queryPkg}, {"value", "github.com/mithrandie/csvq/lib/value"}, {"option", "github.com/mithrandie/csvq/lib/option"}} {
 		pp := p
 		aa := a
 		if extra.path != queryPkg {
 			pp = loadPkg(filepath.Join(repoRoot(), "lib", extra.dir), extra.path)
+			extraPkgs[extra.path] = pp
 			aa = &analysis{p: pp, sums: a.sums, initLits: map[types.Object][]*ast.FuncLit{}, initOf: map[types.Object]ast.Expr{}, called: map[string]bool{}, decls: map[types.Object]*ast.FuncDecl{}}
 		}
 		gr := newRegion("package-level variables of lib/"+extra.dir, token.NoPos)
@@ -635,6 +647,8 @@ func genParFacts() {
 				}
 			}
 		}
+		pkgRegion[pp] = gr
+		pkgAllAcc[pp] = append([]*access(nil), gr.acc...)
 		// variables nobody writes are of no interest here: keep the facts of written variables only
 		written := map[string]bool{}
 		for _, ac := range gr.acc {
@@ -858,6 +872,17 @@ func genParFacts() {
 		classify(r)
 	}
 
+	// the callees of the worker bodies (interproc.go)
+	ipPkgs := []*Pkg{p, extraPkgs[valuePkg], extraPkgs[optionPkg]}
+	ipr := runInterproc(a, ipPkgs, ipRoots)
+	if ipDebug {
+		ipDebugPrint(ipr)
+		return
+	}
+	calleeR := newRegion("functions reachable from the worker bodies: accesses through shared objects (interprocedural)", token.NoPos)
+	calleeRegion(a, calleeR, ipr)
+	pkgStates := packageStateFacts(ipPkgs, pkgRegion, pkgAllAcc)
+
 	// ---------------- output ----------------
 	var all []*access
 	seen := map[string]bool{}
@@ -952,6 +977,7 @@ func genParFacts() {
 		fmt.Fprintf(&o, "  ⟨%s, %d, %s, %s, %v, %s⟩%s\n", leanStr(c.file), c.line, leanStr(c.fn), leanStr(c.field), c.fresh, leanStr(c.how), sep)
 	}
 	o.WriteString("]\n\n")
+	o.WriteString(interprocLean(ipr, calleeR, pkgStates))
 	o.WriteString(poolAndHeaderFactsLean(p))
 	o.WriteString("end Csvq.Gen\n")
 	fmt.Print(o.String())
